@@ -589,3 +589,23 @@ func cmpImpliesAtLeast(g Atom, n int64) (int, bool) {
 	}
 	return pos, true
 }
+
+// ruleOutputFresh (C11.fresh): selection hands the same subtree out twice when selections nest (once inside
+// its parent, once as a document of its own). Everything that runs after selection — filtering, validation,
+// finalisation — therefore has to build new containers and must never write into the tree it is given.
+func ruleOutputFresh(p *Prog, r *Result) {
+	own := p.Own()
+	n := 0
+	for _, name := range []string{"bkl.findOutputs", "bkl.filterOutput", "bkl.validate", "bkl.finalizeOutput"} {
+		if !p.HasFunc(name) {
+			r.Undecided("C11.fresh", name, "", "function not found (renamed?)")
+			continue
+		}
+		fn := p.Func(name)
+		n++
+		mut, why := own.Mut(fn, 0)
+		r.Check(!mut, "C11.fresh", name+" / leaves its argument untouched", p.Pos(fn.Pos()), "no store, element assignment, delete or in-place append reachable from it targets the tree it was given",
+			"the output pipeline writes into the tree it was handed ("+why+"): a selected subtree is also part of its selected parent, so filtering one rewrites the other (duplicated or missing entries in the output)")
+	}
+	r.Floor("C11.fresh", "output pipeline stages", n, 4)
+}
